@@ -4,6 +4,7 @@
 From Coq Require Import Lia Sorted.
 From SV Require Import Spec.QuietSpec Proofs.QuietProofs.
 From SV Require Import Model.Sliding Proofs.TumblingProofs Proofs.TumblingComplete Proofs.SlidingProofs Proofs.SlidingComplete.
+From SV Require Import Spec.SlideSpec Proofs.TumblingSpecSound Proofs.SlidingSpecSound.
 
 (* every emitted interval is [s, s+size) with s a multiple of the slide, and holds only rows that
    were added with a timestamp inside it (slide dividing size or not, slide = size, slide > size) *)
@@ -66,6 +67,20 @@ Theorem C08_tick_redelivers_skipped_watermark : forall c base h,
   Forall (now_is base) h -> quiet_violated (sooo c) base (snd (srun c sst0 h)) = false.
 Proof. exact sliding_quiet. Qed.
 Print Assumptions C08_tick_redelivers_skipped_watermark.
+
+(* the executable checker the harness applies to the real sliding window's trace (Spec/SlideSpec.v chk_C08: every batch is
+   [s, s+size) with s a multiple of the slide holding only its own, known rows; no interval twice; first firings in
+   increasing order; no interval before the slide-aligned start of the earliest on-time row; no firing before a
+   watermark >= its end is being handled, watermarks being (an accepted timestamp) - ooo and increasing; every first
+   firing holds every on-time row inside its interval; when a watermark has been handled, every covering interval of
+   every on-time row that ended before it has been delivered with the row inside) accepts EVERY trace of the model:
+   all histories of atomic steps with distinct row ids, non-negative timestamps, one wall clock; slide dividing the
+   size or not, slide = size, slide > size (gaps).  ALLOWEDLATENESS = 0. *)
+Theorem C08_model_passes_checker_lateness0 : forall c base h,
+  0 < sslide c -> 0 < ssize c -> 0 <= sooo c -> slateness c = 0 ->
+  Forall (hist_op_ok base) h -> NoDup (hids h) -> chk_C08 c base (snd (srun c sst0 h)) = None.
+Proof. intros c base h Hs Hz Ho. exact (sliding_model_passes_checker_lat0 c base Hs Hz Ho h). Qed.
+Print Assumptions C08_model_passes_checker_lateness0.
 
 (* non-vacuity: size 10, slide 5; an on-time row older than the first row's slot (the repaired
    defect) brings in the two earlier intervals; the row 1012 is in both intervals covering it *)
